@@ -24,8 +24,8 @@ tvars == <<l, cfg, syn, issued, own, cur, qual, qual21, qual22, cqual, expect, p
 PP == 0..7
 None32 == <<-1, -1>>
 NoCur == [st |-> "no", iss |-> None32, irs1 |-> None32]
-NoExp == [kind |-> "none", pp |-> -1, seq |-> None32]
-Free(p) == [kind |-> "free", pp |-> p, seq |-> None32]
+NoExp == [kind |-> "none", pp |-> -1, seq |-> None32, ack |-> None32]
+Free(p) == [kind |-> "free", pp |-> p, seq |-> None32, ack |-> None32]
 Fld(r, f, d) == IF f \in DOMAIN r THEN r[f] ELSE d
 Add32(p, n) == LET s == p[2] + n IN <<(p[1] + (s \div 65536)) % 65536, s % 65536>>
 HasFlag(e, c) == \E i \in 1..Len(e.flags) : SubSeq(e.flags, i, i) = c
@@ -36,10 +36,10 @@ Blank == /\ syn = [p \in PP |-> {}] /\ issued = [p \in PP |-> {}] /\ own = [p \i
          /\ cur = [p \in PP |-> NoCur] /\ qual = [p \in PP |-> FALSE] /\ qual21 = [p \in PP |-> FALSE] /\ qual22 = [p \in PP |-> FALSE]
          /\ cqual = FALSE /\ expect = NoExp /\ probing = FALSE
          /\ pmss = [p \in PP |-> -1] /\ pws = [p \in PP |-> -1] /\ sws = [p \in PP |-> -1] /\ edge = [p \in PP |-> -1]
-TInit == l = 1 /\ cfg = [role |-> "none", cookie |-> 0, kf21 |-> FALSE, kf22 |-> FALSE] /\ Blank /\ HWInit
+TInit == l = 1 /\ cfg = [role |-> "none", cookie |-> 0, kf21 |-> FALSE, kf22 |-> FALSE, nosock |-> FALSE] /\ Blank /\ HWInit
 
 Reset == /\ IsEvent("reset") /\ expect.kind \in {"none", "free"}
-         /\ cfg' = [role |-> Ev.role, cookie |-> Ev.cookie, kf21 |-> Fld(Ev, "kf21", FALSE), kf22 |-> Fld(Ev, "kf22", FALSE)]
+         /\ cfg' = [role |-> Ev.role, cookie |-> Ev.cookie, kf21 |-> Fld(Ev, "kf21", FALSE), kf22 |-> Fld(Ev, "kf22", FALSE), nosock |-> Fld(Ev, "nosock", FALSE)]
          /\ syn' = [p \in PP |-> {}] /\ issued' = [p \in PP |-> {}] /\ own' = [p \in PP |-> {}]
          /\ cur' = [p \in PP |-> NoCur] /\ qual' = [p \in PP |-> FALSE] /\ qual21' = [p \in PP |-> FALSE] /\ qual22' = [p \in PP |-> FALSE]
          /\ cqual' = FALSE /\ expect' = NoExp /\ probing' = FALSE
@@ -92,9 +92,14 @@ Inj == /\ IsEvent("inj") /\ expect.kind = "none" /\ Ev.pp \in PP
                       ELSE IF S /\ ~A THEN 1 + w ELSE -1
               e2 == IF ws2 = -2 THEN -1 ELSE IF cand > edge[p] THEN cand ELSE edge[p] IN
           /\ expect' = IF probing THEN Free(p)
-                       ELSE IF R THEN [kind |-> "quiet", pp |-> p, seq |-> None32]                       \* ResetNeverAnswered (any state)
+                       \* no socket for this family (IPv4 peer, the only socket is IPV6_V6ONLY): exactly one reset that acknowledges
+                       \* the segment, sequence number = its ack number (0 without ACK); a reset gets nothing
+                       ELSE IF cfg.nosock /\ ~R
+                            THEN [kind |-> "mustrst", pp |-> p, seq |-> IF A THEN Ack32(Ev) ELSE <<0, 0>>,
+                                  ack |-> Add32(Seq32(Ev), Ev.n + (IF S THEN 1 ELSE 0) + (IF HasFlag(Ev, "F") THEN 1 ELSE 0))]
+                       ELSE IF R THEN [kind |-> "quiet", pp |-> p, seq |-> None32, ack |-> None32]                       \* ResetNeverAnswered (any state)
                        ELSE IF c.st = "def" /\ A /\ Ack32(Ev) # Add32(c.iss, 1) /\ cfg.cookie = 0
-                            THEN [kind |-> "mustrst", pp |-> p, seq |-> Ack32(Ev)]                    \* BadAck
+                            THEN [kind |-> "mustrst", pp |-> p, seq |-> Ack32(Ev), ack |-> None32]    \* BadAck
                        ELSE Free(p)
           /\ cur' = [cur EXCEPT ![p] = CurAfter(p, Ev)]
           /\ syn' = [syn EXCEPT ![p] = IF S /\ ~R THEN @ \cup {Seq32(Ev)} ELSE @]
@@ -129,7 +134,8 @@ EmitSyn == /\ IsEvent("emit") /\ IsTcp /\ HasFlag(Ev, "S") /\ ~HasFlag(Ev, "R") 
 \* BadAck: the reply is a reset whose sequence number is the offending acknowledgement number; nothing follows it
 EmitMustRst == /\ IsEvent("emit") /\ IsTcp /\ expect.kind = "mustrst" /\ Ev.pp = expect.pp
                /\ HasFlag(Ev, "R") /\ ~HasFlag(Ev, "S") /\ Seq32(Ev) = expect.seq /\ Ev.sumok /\ Ev.ipok /\ Ev.n = 0
-               /\ expect' = [kind |-> "quiet", pp |-> expect.pp, seq |-> None32]
+               /\ (expect.ack # None32 => (HasFlag(Ev, "A") /\ Ack32(Ev) = expect.ack))
+               /\ expect' = [kind |-> "quiet", pp |-> expect.pp, seq |-> None32, ack |-> None32]
                /\ Keep /\ UNCHANGED probing
 \* what the peer allowed: segments no longer than the MSS it offered, nothing beyond the window it offered
 Respect(p) == /\ (pmss[p] >= 0 => Ev.n <= pmss[p])
